@@ -309,6 +309,7 @@ type skModel struct {
 	zero     float64
 	vals     []obs.VW     // everything absorbed with weight > 0 (values as the sketch saw them; after a unit change: fl(v*scale), as min/max are rescaled)
 	truth    []*big.Float // the exact value of each entry (exact product of the original value and every unit-change factor): reference for the sum
+	amp      float64      // product of the scale-ups applied by unit changes (>= 1): absolute errors committed before a scale-up are amplified by it
 }
 
 func newSkModel(m mapping.IndexMapping) *skModel {
@@ -334,6 +335,12 @@ func (k *skModel) add(v, w float64) {
 // rescale applies a unit change to the value list (the per-side maps are not tracked through it).
 func (k *skModel) rescale(scale float64) {
 	sc := new(big.Float).SetPrec(600).SetFloat64(scale)
+	if k.amp < 1 {
+		k.amp = 1
+	}
+	if scale > 1 {
+		k.amp *= scale
+	}
 	for i := range k.vals {
 		k.vals[i].V *= scale
 		k.truth[i] = new(big.Float).SetPrec(600).Mul(k.truth[i], sc)
@@ -343,7 +350,7 @@ func (k *skModel) rescale(scale float64) {
 func (k *skModel) total() float64 { return k.zero + k.pos.Total() + k.neg.Total() }
 
 func (k *skModel) copy() *skModel {
-	return &skModel{m: k.m, pos: k.pos.Copy(), neg: k.neg.Copy(), zero: k.zero, vals: append([]obs.VW(nil), k.vals...), truth: append([]*big.Float(nil), k.truth...)}
+	return &skModel{m: k.m, pos: k.pos.Copy(), neg: k.neg.Copy(), zero: k.zero, vals: append([]obs.VW(nil), k.vals...), truth: append([]*big.Float(nil), k.truth...), amp: k.amp}
 }
 
 func (k *skModel) clear() {
@@ -352,9 +359,16 @@ func (k *skModel) clear() {
 	k.zero = 0
 	k.vals = nil
 	k.truth = nil
+	k.amp = 1
 }
 
 func (k *skModel) scale(f float64) {
+	if k.amp < 1 {
+		k.amp = 1
+	}
+	if f > 1 {
+		k.amp *= f // absolute (subnormal) rounding errors of the running sum are multiplied too
+	}
 	k.pos.Scale(f)
 	k.neg.Scale(f)
 	k.zero *= f
@@ -370,6 +384,9 @@ func (k *skModel) merge(o *skModel, oc skCfg) {
 	k.zero += o.zero
 	k.vals = append(k.vals, o.vals...)
 	k.truth = append(k.truth, o.truth...)
+	if o.amp > k.amp {
+		k.amp = o.amp
+	}
 }
 
 // refold replaces the unfolded content by the folded one (after a round-trip through an encoding or a fresh store).
@@ -468,10 +485,11 @@ func checkAgainstModel(s obs.SK, c skCfg, k *skModel, bud *model.Budget) string 
 		} else {
 			wmin, wmax = k.binMin(c), k.binMax(c)
 		}
-		if !obs.FEq(gmin, wmin) {
+		// numeric equality: the sign of a zero extreme is not part of any property (-5e-324 * 0.5 underflows to -0)
+		if !(gmin == wmin) {
 			return fmt.Sprintf("GetMinValue: got %v want %v", gmin, wmin)
 		}
-		if !obs.FEq(gmax, wmax) {
+		if !(gmax == wmax) {
 			return fmt.Sprintf("GetMaxValue: got %v want %v", gmax, wmax)
 		}
 	}
